@@ -269,7 +269,7 @@ func c03Run(c *core.Ctx) *core.Result {
 		r.Count("prior_dirs_announced_as_symlink_or_fifo", 1)
 	}
 	// one mutation
-	mut := core.Pick(R, []string{"none", "none", "dotdot", "dot", "empty", "updown", "dotdotx", "abs", "unclean", "dup", "order", "childofnondir", "noparent", "hl-unknown", "hl-later", "hl-escape", "hl-nonfile", "data-unsolicited", "data-afterterm", "backslash", "newline", "hugesize", "fin-early", "stat-after-end"})
+	mut := core.Pick(R, []string{"none", "none", "dotdot", "dot", "empty", "updown", "dotdotx", "abs", "unclean", "dup", "order", "childofnondir", "noparent", "hl-unknown", "hl-later", "hl-escape", "hl-nonfile", "data-unsolicited", "data-afterterm", "backslash", "newline", "hugesize", "fin-early", "stat-after-end", "err-packet", "req-from-sender"})
 	k := 0
 	if len(stats) > 0 {
 		k = R.Intn(len(stats) + 1)
@@ -382,6 +382,10 @@ func c03Run(c *core.Ctx) *core.Result {
 		st := fileStat("zzz-huge")
 		st.Size = 1 << 60
 		stats = append(stats, st)
+	case "err-packet":
+		unsolicited = append(unsolicited, hpkt{Kind: "err", Data: []byte("sender says no")})
+	case "req-from-sender":
+		unsolicited = append(unsolicited, hpkt{Kind: "req", ID: uint32(R.Intn(len(stats) + 2))})
 	case "fin-early":
 		finEarly = true
 	case "stat-after-end":
@@ -476,7 +480,7 @@ func c03Run(c *core.Ctx) *core.Result {
 		for i, st := range stats {
 			if len(unsolicited) > 0 && i == k%(len(stats)+1) {
 				for _, u := range unsolicited {
-					if err := rp.Send(&types.Packet{Type: types.PACKET_DATA, ID: u.ID, Data: u.Data}); err != nil {
+					if err := rp.Send(hostilePacket(u)); err != nil {
 						return err
 					}
 				}
@@ -487,7 +491,7 @@ func c03Run(c *core.Ctx) *core.Result {
 			}
 		}
 		for _, u := range unsolicited {
-			if err := rp.Send(&types.Packet{Type: types.PACKET_DATA, ID: u.ID, Data: u.Data}); err != nil {
+			if err := rp.Send(hostilePacket(u)); err != nil {
 				return err
 			}
 		}
@@ -621,4 +625,14 @@ func noLink(e *tree.Entry) string {
 	c := *e
 	c.LinkTo = ""
 	return c.String()
+}
+
+func hostilePacket(u hpkt) *types.Packet {
+	switch u.Kind {
+	case "err":
+		return &types.Packet{Type: types.PACKET_ERR, Data: u.Data}
+	case "req":
+		return &types.Packet{Type: types.PACKET_REQ, ID: u.ID}
+	}
+	return &types.Packet{Type: types.PACKET_DATA, ID: u.ID, Data: u.Data}
 }
